@@ -104,6 +104,14 @@ def body(chk: Check, *, mc_nodes: int, n_random: int, n_variants: int, deep: int
     st = djc.compare_batch(chk, progs, exp, djc.real(progs), "rand-plain")
     chk.add("traces_validated_against_impl", len(progs) - st["zone"])
     chk.sample({"random_program": djc.brief(progs[0]), "expected": exp[progs[0]["id"]]["out"]}, limit=3)
+    # ---- hooks: on_render_before writes a context variable, on_render_after keeps / wraps / replaces the output
+    gh = P.Gen(random.Random(chk.seed * 1000003 + 17), depth=deep, width=3, collide=True, hooks=0.6)
+    ph = [gh.program(3 * 10 ** 6 + i, P.MODES[i % 2]) for i in range(n_random // 2)]
+    exph = djc.oracle(ph)
+    states += djc.oracle.last_states
+    st = djc.compare_batch(chk, ph, exph, djc.real(ph), "rand-hooks")
+    chk.add("hook_programs", len(ph) - st["zone"])
+    chk.add("traces_validated_against_impl", len(ph) - st["zone"])
     # ---- variants: dynamic component
     # The dynamic component is a component instance of its own between caller and callee; outside the
     # sub-language below (no loops / with / is_filled / dynamically named fills; django mode: closed fills) it is known not to be
@@ -162,6 +170,34 @@ def selftest(tier: str) -> int:
     boot.setup()
     allp = djc.standard_probes()
     probes = [(n, allp[n]) for n in ['is_filled-always-true', 'fills-named-b-dropped', 'default-flag-fallback-dropped', 'slot-data-alias-lost']]
+
+    def on_render_after_result_ignored():
+        # the string returned by on_render_after is dropped (the callback still runs)
+        from contextlib import contextmanager
+        import django_components.component as dcomp
+
+        class Proxy(dict):
+            def __init__(self, inner):
+                self.inner = inner
+
+            def __getitem__(self, k):
+                cb = self.inner[k]
+                return lambda html: (cb(html), html)[1]
+
+        @contextmanager
+        def cm():
+            orig = dcomp.component_post_render
+
+            def cpr(*a, **kw):
+                kw["on_component_rendered_callbacks"] = Proxy(kw["on_component_rendered_callbacks"])
+                return orig(*a, **kw)
+            dcomp.component_post_render = cpr
+            try:
+                yield
+            finally:
+                dcomp.component_post_render = orig
+        return cm()
+    probes.append(("on_render_after-result-ignored", on_render_after_result_ignored))
     return run_probes(PID, probes, lambda chk: body(chk, mc_nodes=2, n_random=300, n_variants=60, deep=3))
 
 
